@@ -6,7 +6,7 @@ import ast
 import re
 
 from ..cfg import cfg_of
-from ..core import AnalysisError, call_name, const_value, dotted, unparse, walk_no_nested
+from ..core import seq, AnalysisError, call_name, const_value, dotted, unparse, walk_no_nested
 from ..pattern import body_is, find, has
 from ..report import Ctx
 
@@ -43,10 +43,11 @@ def run(ctx: Ctx) -> None:
         ok = same_dir and len(w) == 1 and unparse(rep[0].args[0]) == tmp and (dst == iter_name or _is_alias(f, dst, iter_name))
         if ok:
             withs = [n for n in walk_no_nested(f.node) if isinstance(n, ast.With) and any(it.context_expr is w[0] for it in n.items)]
-            ok = len(withs) == 1 and rep[0].lineno > withs[0].end_lineno and cfg.dominates(cfg.node_of(withs[0]), cfg.node_of(rep[0]))
+            ok = len(withs) == 1 and not any(x is rep[0] for x in ast.walk(withs[0])) and cfg.dominates(cfg.node_of(withs[0]), cfg.node_of(rep[0]))
             # all lines are written inside the with block
             prints = [c for c in walk_no_nested(f.node) if isinstance(c, ast.Call) and call_name(c) in ('print', 'write', 'writelines') and ('file=' in unparse(c) or call_name(c) != 'print')]
-            ok = ok and all(withs[0].lineno <= p.lineno <= withs[0].end_lineno for p in prints) and bool(prints)
+            in_with = {id(x) for x in ast.walk(withs[0])} if withs else set()
+            ok = ok and all(id(p) in in_with for p in prints) and bool(prints)
     ctx.add('C15.R1', 'iter-writer:atomic', ok, (f.file, mk[0].lineno if mk else f.line),
             'unique temporary file in the same directory, written and closed, then os.replace onto the iteration file' if ok else 'the write-temporary-then-replace protocol is not in place', 'atomic')
     # ---- R2
@@ -115,7 +116,8 @@ elif self.save_iterations:
 """)
         if b is not None:
             best = [n for n in guard[0].body if isinstance(n, ast.If) and unparse(n.test) == f'{F} >= self.bestIteration']
-            writes_inside = len(best) == 1 and all(best[0].lineno <= c.lineno <= best[0].end_lineno for c in rep + mk)
+            inside = {id(x) for x in ast.walk(best[0])} if len(best) == 1 else set()
+            writes_inside = len(best) == 1 and all(id(c) in inside for c in rep + mk)
             ok = writes_inside and not best[0].orelse and len(guard[0].body) == 2
     ctx.add('C15.R3', 'iter-writer:best-so-far', ok, (f.file, guard[0].lineno if guard else f.line),
             'written only with finite derivatives and f >= bestIteration; the marker is raised to f on every write' if ok else 'the best-so-far discipline of the iteration file is broken (guard, marker update or finite-derivative test)', det)
@@ -136,7 +138,7 @@ elif self.save_iterations:
             kv = keep[0].targets[0].id
             on = [n for n in walk_no_nested(e.node) if isinstance(n, ast.Assign) and unparse(n) == f'self.save_iterations = {kv}']
             tries = [n for n in walk_no_nested(e.node) if isinstance(n, ast.Try) and boot[0] in n.body]
-            ok = len(on) == 1 and len(tries) == 1 and on[0] in tries[0].finalbody and ce.dominates(ce.node_of(off[0]), ce.node_of(boot[0])) and keep[0].lineno < off[0].lineno
+            ok = len(on) == 1 and len(tries) == 1 and on[0] in tries[0].finalbody and ce.dominates(ce.node_of(off[0]), ce.node_of(boot[0])) and seq(keep[0]) < seq(off[0])
     ctx.add('C15.R4', 'estimate:bootstrap', ok, (e.file, boot[0].lineno if boot else e.line),
             'saving is off while the model is re-estimated on resamples and is restored in a finally block' if ok else 'iterates of bootstrap re-estimations (resampled data) can be written to the iteration file', 'bootstrap')
     # ---- R5
